@@ -213,7 +213,8 @@ func (b *Box) maybeGC() {
 
 	epochsAfterWhichWeGC := b.GCExpire / b.GCSweep
 
-	if time.Duration(now-lastGC) > epochsAfterWhichWeGC {
+	// Garbage collect at most once per expiration period
+	if time.Duration(now-lastGC) < epochsAfterWhichWeGC {
 		return
 	}
 
